@@ -68,48 +68,3 @@ pub fn c18_function_value_in_list_is_error() {
     forget(r);
     forget(l);
 }
-/// lists become arrays of the exported elements, in order
-#[cfg_attr(kani, kani::proof)]
-#[cfg_attr(kani, kani::unwind(6))]
-#[cfg_attr(kani, kani::stub(alloc::fmt::format, stub_format))]
-pub fn c18_list_becomes_array() {
-    let i: i64 = any();
-    let b: bool = any();
-    let l = Value::List(Arc::new(vec![Value::Int(i), Value::Bool(b), Value::Null]));
-    let r = l.json();
-    match &r {
-        Ok(serde_json::Value::Array(a)) => {
-            assert!(a.len() == 3);
-            assert!(a[0].as_i64() == Some(i));
-            assert!(a[1] == serde_json::Value::Bool(b));
-            assert!(a[2].is_null());
-        }
-        _ => assert!(false),
-    }
-    forget(r);
-    forget(l);
-}
-/// durations export their nanosecond count; a duration beyond 64-bit nanoseconds is an error, not a panic
-#[cfg_attr(kani, kani::proof)]
-#[cfg_attr(kani, kani::unwind(6))]
-#[cfg_attr(kani, kani::stub(alloc::fmt::format, stub_format))]
-pub fn c18_durations() {
-    let s: i64 = any();
-    let n: u32 = any();
-    assume(n < 1_000_000_000);
-    // chrono::Duration::new rejects values outside +-i64::MAX milliseconds
-    let d = match chrono::Duration::new(s, n) {
-        Some(d) => d,
-        None => return,
-    };
-    let v = Value::Duration(d);
-    let r = v.json();
-    let exact = (s as i128) * 1_000_000_000 + n as i128;
-    if exact >= i64::MIN as i128 && exact <= i64::MAX as i128 {
-        assert!(matches!(&r, Ok(j) if j.as_i64() == Some(exact as i64)));
-    } else {
-        assert!(r.is_err());
-    }
-    forget(r);
-    forget(v);
-}
